@@ -36,6 +36,11 @@ TRUSTED = ["models Strophe/Model/HashTab.lean + Strophe/Model/Stanza.lean tied t
            "Spec/Xml.lean (independent XML fragment parser with namespace scoping) cross-checked on every run "
            "against raw expat (harness op xrender) and Python's xml.etree.ElementTree"]
 ASSUMPTIONS = ["allocation failure paths are not modelled",
+               "xmpp_stanza_new_from_string is modelled with expat replaced by the reader of Spec/Xml.lean, i.e. on the "
+               "fragment grammar the serialiser can emit (ops `parse`/`reparse` are only given such input); expat itself "
+               "runs for real on the C side and, as an independent reader (raw, not through parser_expat.c), in `xrender`",
+               "known finding F2 (xmlns=\"\" below a namespaced ancestor is not kept by parser_expat.c) is generated in a "
+               "separate marked stream only and reported by signature C09:reparse:reread-undeclared-ns",
                "a stanza is attached to at most one parent and never below itself (op `child` hands the child "
                "over); rendering a child after its parent was released (D6) belongs to C12 and is not generated",
                "names are NCNames (no prefixes) except the library's own `stream:error`",
@@ -272,6 +277,71 @@ def et_parse(doc, ambient):
     return et_canon(root[0]), None
 
 
+def canon_explicit(n):
+    """canonical tree of a RE-READ stanza under the library's own reading: an element's namespace is its own
+    xmlns attribute, nothing is inherited (parser_expat.c puts an explicit xmlns on every namespaced element)"""
+    if n.kind == "text":
+        return ("t", n.data)
+    v = own_ns(n)
+    attrs = tuple(sorted((k, v2) for k, v2 in (n.attrs or {}).items() if k != XMLNS))
+    kids = merge_text([canon_explicit(k) for k in n.kids if k.kind != "unk"])
+    return ("e", v if v else None, n.data, attrs, kids)
+
+
+def parse_dump(s):
+    """inverse of the `dump` format of the engine (harness/eng_stz.c)"""
+    pos = [0]
+
+    def hexv():
+        m = re.compile(r"[0-9a-f]+|\.|-").match(s, pos[0])
+        pos[0] = m.end()
+        return unhx(m.group(0))
+
+    def kids():
+        out = []
+        assert s[pos[0]] == "["
+        pos[0] += 1
+        while s[pos[0]] != "]":
+            out.append(node())
+            if s[pos[0]] == ",":
+                pos[0] += 1
+        pos[0] += 1
+        return out
+
+    def node():
+        c = s[pos[0]]
+        if c == "'":
+            pos[0] += 1
+            d = hexv()
+            pos[0] += 1
+            n = Node("text", d)
+        elif c == "?":
+            pos[0] += 1
+            n = Node("unk")
+        else:
+            assert c == "("
+            pos[0] += 1
+            name = hexv()
+            assert s[pos[0]] == "{"
+            pos[0] += 1
+            attrs = {}
+            while s[pos[0]] != "}":
+                k = hexv()
+                pos[0] += 1
+                attrs[k] = hexv()
+                if s[pos[0]] == ",":
+                    pos[0] += 1
+            pos[0] += 1
+            n = Node("tag", name, attrs or None, kids())
+            assert s[pos[0]] == ")"
+            pos[0] += 1
+            return n
+        if pos[0] < len(s) and s[pos[0]] == "[":
+            n.kids = kids()
+        return n
+    return node()
+
+
 # ---- what the library's own parser makes of a rendering (explicit xmlns on every namespaced element)
 
 def reparsed(n, parent, scope):
@@ -351,6 +421,7 @@ UNKNOWN = object()   # reference value of a variable the reference cannot predic
 class Sim:
     def __init__(self):
         self.vars = {}
+        self.reread = {}     # variable -> (index of the reparse op, canonical tree of what was rendered)
 
     @staticmethod
     def varno(tok, plain=False):
@@ -454,6 +525,13 @@ def simulate(ops, outs):
         t = op.split(" ")
         k = t[0]
         want = None        # exact expected line, when the reference determines it
+        if k not in ("dump", "render", "xrender", "attrs", "getattr") and sim.reread:
+            for tok in t[1:]:
+                r = Sim.varno(tok)
+                if r is not None:
+                    sim.reread.pop(r[0], None)
+            if k == "end":
+                sim.reread.clear()
         try:
             if k == "end" and len(t) == 1:
                 sim.vars.clear()
@@ -585,11 +663,27 @@ def simulate(ops, outs):
                     del sim.vars[v[0]]
                     want = "= freed 1"
             elif k == "dump" and len(t) == 2:
-                e, n, par, _ = sim.resolve(t[1])
+                e, n, par, rootv = sim.resolve(t[1])
                 if e:
                     want = "= err " + e
                 elif n is not UNKNOWN:
                     want = "= tree " + dump_str(n)
+                if not e and "/" not in t[1] and rootv in sim.reread and out.startswith("= tree "):
+                    # the stanza the library re-read from its own output, as the ACCESSORS show it, must be the
+                    # tree that was rendered.  Read with the renderer's own convention (no xmlns attribute =
+                    # inherit) and, to classify a difference, with parser_expat.c's (no xmlns attribute = none).
+                    ri, orig = sim.reread.pop(rootv)
+                    try:
+                        got = parse_dump(out[len("= tree "):])
+                    except (AssertionError, IndexError, AttributeError, ValueError):
+                        got = None
+                    if got is not None and canon(got, None) != orig:
+                        if canon_explicit(got) == orig:
+                            bad(ri, "reread-undeclared-ns re-read tree, rendered again, puts a namespace-less element "
+                                    "into its ancestor's namespace: %s want %s"
+                                % (canon_str(canon(got, None))[:120], canon_str(orig)[:120]))
+                        else:
+                            bad(ri, "reread-differs %s want %s" % (canon_str(canon(got, None))[:160], canon_str(orig)[:160]))
             elif k == "render" and len(t) == 2:
                 e, n, par, _ = sim.resolve(t[1])
                 if e:
@@ -628,6 +722,7 @@ def simulate(ops, outs):
                     want = "= err -2"
                 elif n.kind == "tag" and wf(n):
                     sim.vars[w[0]] = reparsed(n, par, None)
+                    sim.reread[w[0]] = (i, canon_r(n, par, None))
                     want = "= ok"
                 elif n.kind == "text" or has_illegal(n):
                     want = "= null"
@@ -843,10 +938,10 @@ def rtext(rng, attr=False, maxlen=40):
     return s.encode("utf-8")
 
 
-def rns(rng):
+def rns(rng, allow_empty=True):
     if rng.random() < 0.8:
         return rng.choice(NAMESPACES)
-    if rng.random() < 0.1:
+    if allow_empty and rng.random() < 0.1:
         return b""
     v = rtext(rng, attr=True, maxlen=12)
     return v.replace(b"{", b"(").replace(b"}", b")") or b"n"
@@ -881,7 +976,8 @@ def gen_spec(rng, depth, fan, parent_ns=None, top=True):
         if r < 0.15 and parent_ns is not None:
             ns = parent_ns            # equal to the parent's: elided
         elif r < 0.3:
-            ns = rns(rng)
+            # `xmlns=""` below an element is generated by case_undeclared only (known finding F2)
+            ns = rns(rng, allow_empty=False)
         elif r < 0.34:
             ns = JC
     if ns is not None:
@@ -1406,6 +1502,36 @@ def case_misuse(rng, tier):
     return p.ops
 
 
+F2_MARK = "xcanon - " + hx(b"<undeclared-ns-stream/>")
+
+
+def case_undeclared(rng, tier):
+    """the `xmlns=\"\"` below a namespaced ancestor shape (known finding F2: parser_expat.c does not keep the
+    un-declaration, so the re-read tree, rendered again, moves the element into the ancestor's namespace).
+    Kept in its own stream, marked by its first op, so that the finding is reported by signature on every run
+    while every other re-read mismatch stays a violation."""
+    p = Prog(rng)
+    p.emit(F2_MARK)
+    top = gen_spec(rng, 0, 0)
+    top.attrs = [(k, v) for k, v in top.attrs if k != XMLNS] + [(XMLNS, rng.choice(NAMESPACES[1:]))]
+    mid = top
+    for _ in range(rng.choice([0, 0, 1, 2])):
+        nxt = Spec("tag", rname(rng, COMMON_NAMES), [], [])
+        mid.kids.append(nxt)
+        if rng.random() < 0.5:
+            mid.kids.append(Spec("text", text=rtext(rng)))
+        mid = nxt
+    leaf = gen_spec(rng, rng.choice([0, 1]), 2, top=False)
+    leaf.attrs = [(k, v) for k, v in leaf.attrs if k != XMLNS] + [(XMLNS, b"")]
+    mid.kids.append(leaf)
+    v = p.build(top)
+    T = "v%d" % v
+    p.observe(T)
+    p.reread(T)
+    p.emit("end")
+    return p.ops
+
+
 def fixed_cases():
     """hand-written programs run in every tier"""
     h = hx
@@ -1429,6 +1555,8 @@ def generate(rng, tier, override=0):
         n = override
     else:
         n = 600 if tier == "quick" else 12000
+    for _ in range(3 if tier == "quick" else 30):
+        cases.append(case_undeclared(rng, tier))
     kinds = [(case_tree, 0.42), (case_size, 0.2), (case_attrs, 0.1), (case_reply, 0.12), (case_errnew, 0.03),
              (case_hostile, 0.08), (case_misuse, 0.05)]
     # every exact size around the first buffer once per run
@@ -1480,6 +1608,7 @@ def size_class(n):
 
 def tags(case, outs):
     res = []
+    f2 = bool(case.ops) and case.ops[0] == F2_MARK
     for op, out in zip(case.ops, outs):
         t = op.split(" ")
         k = t[0]
@@ -1499,6 +1628,8 @@ def tags(case, outs):
             res.append("attrs:%s" % (o[2] if len(o) > 2 and len(o[2]) < 3 else "many"))
         elif k in ("dump",):
             res.append("dump:%s" % ("path" if "/" in t[1] else "root"))
+        elif k == "reparse" and f2:
+            res.append("reparse:undeclared-ns-stream:" + "-".join(o[1:2]))
         else:
             res.append("%s:%s" % (k, "-".join(o[1:3])[:24]))
     return res
